@@ -16,7 +16,7 @@ func init() {
 	register(&PropInfo{
 		ID:          "C12",
 		Title:       "Query parsing is total and preserves the boolean meaning of the query",
-		Explanation: "Totality only. (1) Every explicit panic reachable (static calls inside package parser) from ParseSeqQL, ParseQuery and ParseAggregationFilter is discharged: enum-guarded sinks by a finite-domain reachability over the declared seq.TokenizerType / logicalKind constants that follows the switched value through parameters to every call site and to its producer (indexType); type-switch defaults by coverage of every concrete type stored into the interface; the remaining caller-checked sinks by a frozen per-site guard that is re-checked at every call site. (2) Every input-driven recursion cycle (SCC of the static call graph reachable from the entry points and the AST walkers used by search) needs a depth parameter that grows along the cycle and is compared with a constant before an error return. (3) Every call of the parse entry points in the repository propagates the returned error. NOT decided: that the parsed tree denotes the written expression, precedence, De Morgan/NAND rewriting, lexer loop termination, implicit runtime panics.",
+		Explanation: "Totality, and one meaning clause. (1) Every explicit panic reachable (static calls inside package parser) from ParseSeqQL, ParseQuery and ParseAggregationFilter is discharged: enum-guarded sinks by a finite-domain reachability over the declared seq.TokenizerType / logicalKind constants that follows the switched value through parameters to every call site and to its producer (indexType); type-switch defaults by coverage of every concrete type stored into the interface; the remaining caller-checked sinks by a frozen per-site guard that is re-checked at every call site. (2) Every input-driven recursion cycle (SCC of the static call graph reachable from the entry points and the AST walkers used by search) needs a depth parameter that grows along the cycle and is compared with a constant before an error return. (3) Every call of the parse entry points in the repository propagates the returned error. (4) FINITE: the negation push-down (propagateNot) is recovered as a decision table by conditional constant propagation over its finite input partition (operator x left-negated x right-negated, operands symbolic) and every cell is compared with the truth table of the input; buildEvalTree reads NAnd in the child order propagateNot writes; both parsers wrap the root in NOT exactly under the returned flag. NOT decided: that the tree built by the recursive-descent parsers denotes the written expression (precedence, grouping), lexer loop termination, implicit runtime panics (index/slice bounds).",
 		Assumptions: []string{"values of the enum types are declared constants (no out-of-range conversions)", "recursion through interface or function values is not followed"},
 		Obs:         c12,
 	})
@@ -135,6 +135,9 @@ func c12() []*Ob {
 					}
 				}
 			}},
+		{Prop: "C12", ID: "C12.4", Engine: "FINITE(SCCP)", Floor: 9,
+			Desc:  "negation push-down keeps the meaning: for every cell of (operator in {AND, OR}) x (left negated) x (right negated), the operator, child order and returned negation flag that propagateNot leaves behind denote the same boolean function of the two operands as the input (LogicalNAnd(c0, c1) = NOT c0 AND c1, as buildEvalTree and node.NewNAnd read it); the NOT case flips the flag of its operand; both parsers wrap the root in a NOT node exactly when the flag is set",
+			Check: func(c *Ctx) { checkPropagateNot(c) }},
 		{Prop: "C12", ID: "C12.3", Engine: "ERRFLOW", Floor: 4,
 			Desc: "every call of parser.ParseSeqQL / ParseQuery / ParseAggregationFilter in non-test repository code propagates the returned error (returned, wrapped, stored or fatal) — a parse error is never dropped or turned into a query",
 			Check: func(c *Ctx) {
@@ -302,4 +305,242 @@ func callerChecksRune(call ssa.CallInstruction, runes []int64) bool {
 		return all
 	}
 	return false
+}
+
+// checkPropagateNot recovers propagateNot's rewrite table by conditional constant
+// propagation over the finite input partition and compares it, cell by cell,
+// with the truth table of the input.
+func checkPropagateNot(c *Ctx) {
+	fn := c.Fn("parser.propagateNot")
+	if fn == nil {
+		return
+	}
+	kinds := c.P.EnumConsts("parser", "logicalKind")
+	and, okA := kinds["LogicalAnd"]
+	or, okO := kinds["LogicalOr"]
+	not, okN := kinds["LogicalNot"]
+	nand, okD := kinds["LogicalNAnd"]
+	if !(okA && okO && okN && okD) {
+		c.Undecided("finite:propagateNot:kinds", fn.Pos(), "cannot enumerate parser.logicalKind")
+		return
+	}
+	// how the evaluator reads NAnd: first child is the negated one
+	if bt := c.Fn("frac/processor.buildEvalTree"); bt != nil {
+		for _, call := range CallsIn(bt, Callee("node.NewNAnd")) {
+			i0, ok0 := childIndex(Arg(call, 0))
+			i1, ok1 := childIndex(Arg(call, 1))
+			if ok0 && ok1 && i0 == 0 && i1 == 1 {
+				c.Site(call.Pos(), "buildEvalTree builds NAnd(negative=children[0], regular=children[1])")
+			} else {
+				c.Violation("finite:buildEvalTree:nand-order", call.Pos(), "buildEvalTree no longer passes children[0] as the negated and children[1] as the regular operand of NAnd, which is how propagateNot orders them")
+			}
+		}
+	}
+	typeAssert := func(x AbsVal, t types.Type) (AbsVal, AbsVal, bool) {
+		if x.Kind == ARef && x.Name == "node.Value" {
+			return Ref("logical"), Bool(true), true
+		}
+		return AbsVal{}, AbsVal{}, false
+	}
+	evalOp := func(op int64, a, b bool) (bool, bool) {
+		switch op {
+		case and:
+			return a && b, true
+		case or:
+			return a || b, true
+		case nand:
+			return !a && b, true
+		}
+		return false, false
+	}
+	opName := func(op int64) string {
+		for n, v := range kinds {
+			if v == op {
+				return n
+			}
+		}
+		return fmt.Sprint(op)
+	}
+	// binary cells
+	for _, op := range []int64{and, or} {
+		for _, lN := range []bool{false, true} {
+			for _, rN := range []bool{false, true} {
+				cell := fmt.Sprintf("%s:left-negated=%v:right-negated=%v", opName(op), lN, rN)
+				outs, err := FiniteEval(FEConfig{
+					Fn:         fn,
+					Mem:        map[string]AbsVal{"logical.Operator": Int(op)},
+					TypeAssert: typeAssert,
+					Call: func(name string, nth int, args []AbsVal, st *FEState) (AbsVal, bool) {
+						if name != "parser.propagateNot" {
+							return AbsVal{}, false
+						}
+						switch nth {
+						case 0:
+							return Tuple(Sym("L"), Bool(lN)), true
+						case 1:
+							return Tuple(Sym("R"), Bool(rN)), true
+						}
+						return AbsVal{}, false
+					},
+				})
+				if err != nil || len(outs) == 0 {
+					c.Undecided("finite:propagateNot:"+cell, fn.Pos(), "cannot evaluate propagateNot for %s: %v", cell, err)
+					continue
+				}
+				for _, o := range outs {
+					why := ""
+					var flag bool
+					var op2 int64
+					var c0, c1 string
+					switch {
+					case o.Panics:
+						why = "reaches a panic"
+					case o.Mem["<havoc>"].Kind == ABool:
+						why = "memory is written through something the analysis does not model (" + strings.Join(o.Notes, "; ") + ")"
+					case len(o.Results) != 2 || o.Results[1].Kind != ABool:
+						why = "the returned negation flag is not a constant of the cell"
+					case o.Results[0].Kind != ARef || o.Results[0].Name != "node":
+						why = "the returned node is not the rewritten node itself (" + o.Results[0].String() + ")"
+					default:
+						flag = o.Results[1].B
+						opv := o.Mem["logical.Operator"]
+						a0, has0 := o.Mem["node.Children[0]"]
+						a1, has1 := o.Mem["node.Children[1]"]
+						if opv.Kind != AInt || !has0 || !has1 || a0.Kind != ASym || a1.Kind != ASym {
+							why = fmt.Sprintf("operator or children are not determined (op=%s c0=%s c1=%s)", opv, a0, a1)
+						} else {
+							op2, c0, c1 = opv.I, a0.Name, a1.Name
+						}
+					}
+					if why != "" {
+						c.Undecided("finite:propagateNot:"+cell, o.Pos, "propagateNot, cell %s: %s", cell, why)
+						continue
+					}
+					bad := ""
+					for _, L := range []bool{false, true} {
+						for _, R := range []bool{false, true} {
+							in, _ := evalOp(op, L != lN, R != rN)
+							pick := func(n string) bool {
+								if n == "L" {
+									return L
+								}
+								return R
+							}
+							if !((c0 == "L" && c1 == "R") || (c0 == "R" && c1 == "L")) {
+								bad = "children are " + c0 + "," + c1
+								continue
+							}
+							outv, ok := evalOp(op2, pick(c0), pick(c1))
+							if !ok {
+								bad = "operator " + opName(op2) + " is not a binary operator"
+								continue
+							}
+							if flag {
+								outv = !outv
+							}
+							if outv != in {
+								bad = fmt.Sprintf("for L=%v R=%v the input is %v but the rewritten node denotes %v", L, R, in, outv)
+							}
+						}
+					}
+					if bad == "" {
+						c.Site(o.Pos, "cell %s -> (%s, children %s %s, negated=%v) is equivalent", cell, opName(op2), c0, c1, flag)
+					} else {
+						c.Violation("finite:propagateNot:"+cell, o.Pos, "propagateNot rewrites %s into (%s of %s,%s; negated=%v), which is a different boolean function: %s — the query returns documents that do not match, or hides documents that do", cell, opName(op2), c0, c1, flag, bad)
+					}
+				}
+			}
+		}
+	}
+	// NOT cell
+	for _, n := range []bool{false, true} {
+		cell := fmt.Sprintf("LogicalNot:operand-negated=%v", n)
+		outs, err := FiniteEval(FEConfig{
+			Fn:         fn,
+			Mem:        map[string]AbsVal{"logical.Operator": Int(not)},
+			TypeAssert: typeAssert,
+			Call: func(name string, nth int, args []AbsVal, st *FEState) (AbsVal, bool) {
+				if name == "parser.propagateNot" && nth == 0 {
+					return Tuple(Sym("X"), Bool(n)), true
+				}
+				return AbsVal{}, false
+			},
+		})
+		if err != nil || len(outs) == 0 {
+			c.Undecided("finite:propagateNot:"+cell, fn.Pos(), "cannot evaluate propagateNot for %s: %v", cell, err)
+			continue
+		}
+		for _, o := range outs {
+			if o.Panics || len(o.Results) != 2 || o.Results[1].Kind != ABool || o.Results[0].Kind != ASym {
+				c.Undecided("finite:propagateNot:"+cell, o.Pos, "propagateNot, cell %s: result not determined", cell)
+				continue
+			}
+			if o.Results[0].Name == "X" && o.Results[1].B == !n {
+				c.Site(o.Pos, "cell %s -> operand with the flag flipped", cell)
+			} else {
+				c.Violation("finite:propagateNot:"+cell, o.Pos, "propagateNot of NOT x returns (%s, negated=%v) for an operand with negated=%v: the negation is lost or doubled", o.Results[0], o.Results[1].B, n)
+			}
+		}
+	}
+	// the root flag is honoured by both parsers
+	for _, name := range []string{"parser.ParseQuery", "parser.ParseSeqQL"} {
+		pf := c.Fn(name)
+		if pf == nil {
+			continue
+		}
+		home := c.P.Locate(pf, CallSel(Callee("parser.propagateNot")))
+		if home == nil {
+			c.Violation("finite:root-flag:"+name, pf.Pos(), "%s no longer pushes negations down with propagateNot", name)
+			continue
+		}
+		for _, call := range CallsIn(home, Callee("parser.propagateNot")) {
+			flagOf := func(v ssa.Value) bool {
+				e, ok := v.(*ssa.Extract)
+				return ok && e.Index == 1 && e.Tuple == call.(ssa.Value)
+			}
+			wraps := CallsIn(home, Callee("parser.newNotNode"))
+			okWrap := false
+			for _, w := range wraps {
+				if v, found := BoolFact(FactsAtInstr(w.(ssa.Instruction)), flagOf); found && v {
+					okWrap = true
+					c.Site(w.Pos(), "%s wraps the root in NOT exactly under the returned flag", name)
+				} else {
+					c.Violation("finite:root-flag:"+name, w.Pos(), "%s wraps the root in a NOT node without the flag returned by propagateNot being true", name)
+				}
+			}
+			if !okWrap && len(wraps) == 0 {
+				c.Violation("finite:root-flag:"+name, call.Pos(), "%s ignores the negation flag returned by propagateNot: a query whose negation reaches the root matches the complement", name)
+			}
+			// a return of the un-negated root must be under flag == false
+			for _, rp := range ReturnPaths(home, 0) {
+				root := rp.Val
+				if root == nil {
+					continue
+				}
+				isRoot := false
+				if e, ok := root.(*ssa.Extract); ok && e.Index == 0 && e.Tuple == call.(ssa.Value) {
+					isRoot = true
+				}
+				if !isRoot {
+					continue
+				}
+				if v, found := BoolFact(rp.Facts, flagOf); found && !v {
+					c.Site(rp.Ret.Pos(), "%s returns the bare root only when the flag is false", name)
+				}
+			}
+		}
+	}
+}
+
+// childIndex: v is children[k] for a constant k.
+func childIndex(v ssa.Value) (int64, bool) {
+	u, ok := v.(*ssa.UnOp)
+	if !ok {
+		return 0, false
+	}
+	ia, ok := u.X.(*ssa.IndexAddr)
+	if !ok {
+		return 0, false
+	}
+	return ConstInt(ia.Index)
 }
